@@ -81,7 +81,8 @@ def build(tree, cfgname):
     return out
 
 
-def run_case(tree, spec, extra, cfgname):
+def run_case(tree, spec, extra, cfgname, earlier=()):
+    """`earlier`: level predicates (or None for a full load) loaded before on the same dataset object"""
     import osyris
 
     extra, _, form = extra.partition(":")
@@ -109,7 +110,13 @@ def run_case(tree, spec, extra, cfgname):
     with _load.Scratch() as d:
         out.write(d)
         try:
-            ds, text = _load.load(d, out.nout, select={"mesh": sel})
+            if earlier:
+                ds = _load.new_dataset(d, out.nout)
+                for e_spec in earlier:
+                    _load.call_load(ds, **({} if e_spec is None else {"select": {"mesh": {"level": level_pred(tuple(e_spec))}}}))
+                text = _load.call_load(ds, select={"mesh": sel})
+            else:
+                ds, text = _load.load(d, out.nout, select={"mesh": sel})
         except Exception as e:
             import traceback
 
@@ -207,6 +214,14 @@ def cases(thorough):
         for extra in ("none", "density"):
             yield "scale", t, spec, extra, "1cpu"
     fams = families(thorough)
+    # block H: the same dataset loaded before with another highest level (or completely): the cap is per call
+    for label, trees in fams:
+        sel = [t for t in trees if t.levelmax >= 2 and any(l < t.levelmax for (l, _c) in t.refined)][:: max(1, len(trees) // 6)][:6]
+        for t in sel:
+            L = t.levelmax
+            for earlier, spec in (([None], ("le", L - 1)), ([["le", L - 1]], ("le", L)), ([["le", 1]], ("between", 0, L + 1)), ([["le", L]], ("le", 1)),
+                                  ([None, ["le", 1]], ("le", L - 1)), ([["eq", L]], ("le", L - 1))):
+                yield label, t, spec, "none", "1cpu", earlier
     for form in ("partial", "callable-object", "bound-method", "def"):
         for label, trees in fams[:3]:
             for t in trees[:: max(1, len(trees) // 3)][:3]:
@@ -233,13 +248,16 @@ def cases(thorough):
 def work(payload):
     acc = Acc()
     thorough = payload["tier"] == "thorough"
-    for idx, (label, t, spec, extra, cfgname) in my_share(cases(thorough), payload):
-        problems, info = run_case(t, spec, extra, cfgname)
+    for idx, item in my_share(cases(thorough), payload):
+        label, t, spec, extra, cfgname = item[:5]
+        earlier = item[5] if len(item) > 5 else ()
+        problems, info = run_case(t, spec, extra, cfgname, earlier)
         acc.case(nontrivial=info.get("Lstar", 0) < info.get("L", 0) or not extra.startswith("none"), outcome="ok" if not problems else "violation")
         if info.get("Lstar", 0) < info.get("L", 0):
             acc.count("capped_below_levelmax")
         for sig, det in problems:
-            acc.violation("C12:" + sig, idx, {"tree": t.describe(), "spec": list(spec), "extra": extra, "cfg": cfgname}, det)
+            acc.violation("C12:" + sig + (":after-earlier-loads-on-the-dataset" if earlier else ""), idx,
+                          {"tree": t.describe(), "spec": list(spec), "extra": extra, "cfg": cfgname, "earlier": [None if e is None else list(e) for e in earlier]}, det)
         if idx % 499 == 0:
             acc.sample({"tree": t.describe(), "level_predicate": list(spec), "extra": extra, "cfg": cfgname, "rows": info.get("rows")})
     return acc
@@ -264,5 +282,6 @@ def run(ctx):
 
 
 def replay_sigs(case):
-    problems, _ = run_case(C01.tree_from(case["tree"]), tuple(case["spec"]), case["extra"], case["cfg"])
-    return ["C12:" + s for s, _ in problems]
+    earlier = case.get("earlier") or ()
+    problems, _ = run_case(C01.tree_from(case["tree"]), tuple(case["spec"]), case["extra"], case["cfg"], earlier)
+    return ["C12:" + s + (":after-earlier-loads-on-the-dataset" if earlier else "") for s, _ in problems]
